@@ -45,7 +45,7 @@ ASSUMPTIONS = [
 ]
 TECHNIQUE = 'Hypothesis tree generator + independent provenance model + per-tree exhaustive probe ranges'
 BUDGET = {'quick': dict(examples=12000, shards=8, max_seconds=60),
-          'thorough': dict(examples=240000, shards=16, max_seconds=600)}
+          'thorough': dict(examples=240000, shards=16, max_seconds=1800)}
 EXH = 14          # exhaustive (start,end) probing when the output text is at most this long
 
 # (regexp, flags) table for make_regexp_patches-derived Replacers (shapes used by codebuilder:
